@@ -227,6 +227,18 @@ func filterObjs(root []any) []map[string]any {
 
 var wrongTypes = []any{nil, true, json.Number("7"), "str", []any{}, map[string]any{}, json.Number("1.5")}
 
+// sameBytesNonHex: the string with a stretch replaced by ONE multi-byte character that a Unicode-aware test might
+// take for a hex digit (a decimal digit of another script, a full-width or Cyrillic look-alike of a-f), keeping the
+// length IN BYTES — so a length check in bytes plus a per-rune "is digit / is letter" test is not enough
+func sameBytesNonHex(r *Rng, s string) string {
+	c := pick(r, []string{"\u0663", "\u0969", "\uff13", "\U0001d7d1", "\u0430", "\uff41", "\u00e9", "\u0661\u0662"})
+	if len(s) < len(c) {
+		return c
+	}
+	at := r.Intn(len(s) - len(c) + 1)
+	return s[:at] + c + s[at+len(c):]
+}
+
 var mutations = []mutation{
 	{"label-unknown", func(r *Rng, root []any) bool { root[0] = pick(r, []string{"EVENTS", "event", "", "OK", "NOTICE", "REQ2"}); return true }},
 	{"label-type", func(r *Rng, root []any) bool { root[0] = pick(r, wrongTypes[:6]); return true }},
@@ -267,7 +279,9 @@ var mutations = []mutation{
 		if len(s) < 2 {
 			return false
 		}
-		switch r.Intn(5) {
+		switch r.Intn(6) {
+		case 5:
+			e[k] = sameBytesNonHex(r, s)
 		case 0:
 			e[k] = s[1:]
 		case 1:
@@ -327,7 +341,9 @@ var mutations = []mutation{
 			return false
 		}
 		f := pick(r, fs)
-		switch r.Intn(6) {
+		switch r.Intn(7) {
+		case 6:
+			f[pick(r, []string{"ids", "authors", "#e", "#p"})] = []any{sameBytesNonHex(r, hexN(r, 64))}
 		case 0:
 			f["ids"] = []any{hexN(r, 63)}
 		case 1:
@@ -721,7 +737,26 @@ func codecGen(r *Rng, n int, tier string) {
 			}
 		case 8:
 			// round trips of (not necessarily valid) values
-			switch r.Intn(4) {
+			switch r.Intn(5) {
+			case 4:
+				// two different values with the SAME event id, one after the other (an encoder that remembers by id)
+				e := wfEvent(r)
+				sub := pick(r, []string{"s", "", "sub"})
+				execRoundtrip(&mocrelay.ServerEventMsg{SubscriptionID: sub, Event: e})
+				e2 := cloneEv(e)
+				switch r.Intn(4) {
+				case 0:
+					e2.Content += "!"
+				case 1:
+					e2.Sig = hexN(r, 128)
+				case 2:
+					e2.Tags = append(e2.Tags, mocrelay.Tag{"t", "x"})
+				default:
+					e2.CreatedAt++
+				}
+				execRoundtrip(&mocrelay.ServerEventMsg{SubscriptionID: sub, Event: e2})
+				execRoundtrip(&mocrelay.ClientEventMsg{Event: e2})
+				execRoundtrip(e2)
 			case 0:
 				execRoundtrip(wfEvent(r))
 			case 1:
